@@ -415,6 +415,36 @@ def handleOpts (a : Args) : String :=
   | some k => "M=ERR:" ++ errName k
   | none => "M=OK"
 
+
+/-! ### diagrams -/
+
+def renderParsed (p : Parsed') : String :=
+  "OK:" ++ joinStr "," (canonSet (p.modules.map enc)) ++ "|" ++
+    joinStr ";" (canonSet (p.dependencies.map fun (kv : Str × List Str) => enc kv.1 ++ "~" ++ joinStr "," (canonSet (kv.2.map enc))))
+
+def handlePuml (a : Args) : String :=
+  match pumlParse (dec (a.get "text")) with
+  | .error k => "M=ERR:" ++ errName k
+  | .ok p => "M=" ++ renderParsed p
+
+def handleDiagram (a : Args) : String :=
+  let g := graphOf a
+  let content := if a.get "text" == "%n" then none else some (dec (a.get "text"))
+  let base := if a.get "base" == "%n" || a.get "base" == "" then none else some (dec (a.get "base"))
+  let only := a.get "mode" != "should"
+  let mAns := match diagramAssert (fun _ _ => false) content base only g with
+    | .pass => "PASS"
+    | .fail items => "FAIL:" ++ joinStr ";" (canonSet (items.map renderItem))
+    | .err k => "ERR:" ++ errName k
+  let sAns := match a.get? "comps" with
+    | none => "S=NA D=-"
+    | some cs =>
+      let d : PtaSpec.Diagram := { components := (strList cs).map toName,
+                                   arrows := (pairList (a.get "arrows")).map fun (p : Str × Str) => (toName p.1, toName p.2) }
+      let arch := archOf a
+      s!"S={if PtaSpec.conforms arch d only then "PASS" else "FAIL"} D={if PtaSpec.diagramDomain arch d then "d" else "-"}"
+  s!"M={mAns} {sAns}"
+
 def handle (line : String) : String :=
   let (op, a) := parseArgs line
   if op == "rule" then handleRule a
@@ -422,6 +452,8 @@ def handle (line : String) : String :=
   else if op == "graph" then handleGraph a
   else if op == "glob" then handleGlob a
   else if op == "label" then handleLabel a
+  else if op == "puml" then handlePuml a
+  else if op == "diagram" then handleDiagram a
   else if op == "scan" then handleScan a
   else if op == "opts" then handleOpts a
   else if op == "scannames" then handleScanNames a
